@@ -872,10 +872,288 @@ pub fn scenarios(tier: Tier) -> Vec<Scenario> {
     v
 }
 
+// ------------------------------------------------------------------
+// Thread level: statement-cache and registry calls made from several threads
+// at once. The caches' lock and size counter and the registry's mutex are shim
+// types in the verification build (hook commit "statement cache and registry
+// locks"), so the explorer interleaves these calls at every lock and counter
+// operation. Set-up (connect, prepare two keys) runs at task level against the
+// scripted backend; the explored phase consists of calls that need no server.
+
+#[derive(Clone, Debug)]
+pub enum TOp {
+    /// `client.statement_cache.remove(key)`
+    CacheRemove(usize, usize),
+    /// `client.statement_cache.clear()`
+    CacheClear(usize),
+    /// `manager.statement_caches.remove(key)`
+    RegRemove(usize),
+    /// `manager.statement_caches.clear()`
+    RegClear,
+    /// `client.statement_cache.size()`
+    Size(usize),
+    /// `Object::take(client)`
+    Take(usize),
+}
+
+#[derive(Clone, Debug)]
+pub struct C16TScenario {
+    pub actors: Vec<Vec<TOp>>,
+}
+
+fn tkey(k: usize) -> (&'static str, Vec<Type>) {
+    match k {
+        0 => (QUERIES[0], vec![]),
+        _ => (QUERIES[0], vec![Type::INT4]),
+    }
+}
+
+struct TRec {
+    op: TOp,
+    start: u32,
+    end: u32,
+    hit: bool,
+    size: usize,
+}
+
+pub fn run_c16_threads(sc: &C16TScenario) -> Outcome {
+    use dpmc::sched::{self, RunCfg, Verdict};
+    use std::rc::Rc;
+    sched::begin();
+    W.with(|c| *c.borrow_mut() = Some(World::default()));
+    let rt = tokio::runtime::Builder::new_current_thread().enable_time().start_paused(true).build().expect("runtime");
+    // keys cached at the start: client 0 holds keys 0 and 1, client 1 holds key 0
+    let initial: [Vec<usize>; 2] = [vec![0, 1], vec![0]];
+    let (pool, objs) = rt.block_on(async {
+        let mut pg = PgConfig::new();
+        pg.user("u").dbname("d").host("scripted");
+        let mgr = Manager::from_connect(pg, FakeConnect, ManagerConfig { recycling_method: RecyclingMethod::Fast });
+        let pool: Pool = Pool::builder(mgr).max_size(2).build().unwrap();
+        let mut objs = Vec::new();
+        for keys in initial.iter() {
+            let c = pool.get().await.expect("set-up get");
+            for k in keys {
+                let (q, t) = tkey(*k);
+                c.prepare_typed_cached(q, &t).await.expect("set-up prepare");
+            }
+            objs.push(c);
+        }
+        (pool, objs)
+    });
+    let caches: Vec<Arc<deadpool_postgres::StatementCache>> = objs.iter().map(|c| c.statement_cache.clone()).collect();
+    // (a cache that is already wrong after the set-up is reported by the
+    // task-level histories; here it only makes the expectations below moot)
+    let setup_ok = caches.iter().zip(initial.iter()).all(|(c, keys)| c.size() == keys.len());
+    let objs: Rc<RefCell<Vec<Option<Object<Manager>>>>> = Rc::new(RefCell::new(objs.into_iter().map(Some).collect()));
+    let taken: Rc<RefCell<Vec<(usize, ClientWrapper)>>> = Rc::new(RefCell::new(Vec::new()));
+    let recs: Rc<RefCell<Vec<TRec>>> = Rc::new(RefCell::new(Vec::new()));
+    let tick: Rc<std::cell::Cell<u32>> = Rc::new(std::cell::Cell::new(0));
+    for (ai, script) in sc.actors.iter().enumerate() {
+        if !setup_ok {
+            bad("cache-size", "after the set-up prepares (two keys on client 0, one on client 1) size() is not 2 and 1".into());
+            break;
+        }
+        let script = script.clone();
+        let (pool, caches, objs, taken, recs, tick) = (pool.clone(), caches.clone(), objs.clone(), taken.clone(), recs.clone(), tick.clone());
+        sched::spawn(&format!("thread{}", ai), move || {
+            for op in script {
+                sched::boundary();
+                tick.set(tick.get() + 1);
+                let start = tick.get();
+                trace!("thread{}: {:?}", ai, op);
+                let (mut hit, mut size) = (false, 0usize);
+                match &op {
+                    TOp::CacheRemove(c, k) => {
+                        let (q, t) = tkey(*k);
+                        hit = caches[*c].remove(q, &t).is_some();
+                    }
+                    TOp::CacheClear(c) => caches[*c].clear(),
+                    TOp::RegRemove(k) => {
+                        let (q, t) = tkey(*k);
+                        pool.manager().statement_caches.remove(q, &t);
+                    }
+                    TOp::RegClear => pool.manager().statement_caches.clear(),
+                    TOp::Size(c) => size = caches[*c].size(),
+                    TOp::Take(c) => {
+                        let o = objs.borrow_mut()[*c].take();
+                        if let Some(o) = o {
+                            let cw = Object::take(o);
+                            taken.borrow_mut().push((*c, cw));
+                            hit = true;
+                        }
+                    }
+                }
+                tick.set(tick.get() + 1);
+                trace!("thread{}: {:?} -> hit {} size {}", ai, op, hit, size);
+                recs.borrow_mut().push(TRec { op, start, end: tick.get(), hit, size });
+            }
+        });
+    }
+    let recs2 = recs.clone();
+    let caches2 = caches.clone();
+    let verdict = sched::run(&RunCfg { horizon: 3000, cancels: false }, || {
+        let mut h = std::collections::hash_map::DefaultHasher::new();
+        for r in recs2.borrow().iter() {
+            (format!("{:?}", r.op), r.hit, r.size).hash(&mut h);
+        }
+        let _ = &caches2;
+        sched::sched_fingerprint().hash(&mut h);
+        note_state(h.finish());
+        sched::machinery_error().is_none()
+    });
+    let mut machinery = sched::machinery_error();
+    match &verdict {
+        Verdict::Done => {}
+        Verdict::Deadlock(d) => bad("deadlock", format!("cache / registry calls deadlock: {}", d)),
+        Verdict::Horizon => bad("livelock", "step horizon exceeded".into()),
+        other => {
+            if machinery.is_none() {
+                machinery = Some(format!("unexpected verdict {:?}", other));
+            }
+        }
+    }
+    for i in 0..sched::actor_count() {
+        if let Some(m) = sched::actor_panicked(i) {
+            bad("panic-in-cache-call", format!("{} panicked: {}", sched::actor_name(i), m));
+        }
+    }
+    if setup_ok && matches!(verdict, Verdict::Done) && machinery.is_none() && w(|w| w.viol.is_empty()) {
+        let recs = recs.borrow();
+        // a statement can be handed back by remove() only once
+        for c in 0..2 {
+            for k in 0..2 {
+                let n = recs.iter().filter(|r| matches!(&r.op, TOp::CacheRemove(cc, kk) if *cc == c && *kk == k) && r.hit).count();
+                if n > 1 {
+                    bad("statement-removed-twice", format!("{} remove() calls returned the one cached statement of client {} key {}", n, c, k));
+                }
+            }
+        }
+        // size() read while the calls were running: never more than the keys
+        // that were cached (nothing is inserted in this phase)
+        for r in recs.iter() {
+            if let TOp::Size(c) = r.op {
+                if r.size > initial[c].len() {
+                    bad("cache-size-exceeds-keys", format!("size() of client {} read {} while at most {} keys were cached", c, r.size, initial[c].len()));
+                }
+            }
+        }
+        let take_of = |c: usize| recs.iter().find(|r| matches!(r.op, TOp::Take(cc) if cc == c) && r.hit).map(|r| (r.start, r.end));
+        // clients still owned by the pool first: the registry probe made for a
+        // taken client clears their caches
+        let mut order: Vec<usize> = (0..2).filter(|c| take_of(*c).is_none()).collect();
+        order.extend((0..2).filter(|c| take_of(*c).is_some()));
+        for c in order {
+            // which keys must be gone / must still be there / may be either
+            let mut expect: Vec<Option<bool>> = Vec::new(); // Some(true) present, Some(false) absent, None either
+            for k in 0..2 {
+                if !initial[c].contains(&k) {
+                    expect.push(Some(false));
+                    continue;
+                }
+                let mut e = Some(true);
+                for r in recs.iter() {
+                    let covers = match &r.op {
+                        TOp::CacheRemove(cc, kk) => *cc == c && *kk == k,
+                        TOp::CacheClear(cc) => *cc == c,
+                        TOp::RegRemove(kk) => *kk == k,
+                        TOp::RegClear => true,
+                        _ => false,
+                    };
+                    if !covers {
+                        continue;
+                    }
+                    let registry = matches!(r.op, TOp::RegRemove(_) | TOp::RegClear);
+                    match (registry, take_of(c)) {
+                        // registry call that began after the take had returned: must not reach the client
+                        (true, Some((_, te))) if r.start > te => {}
+                        // overlapping the take: either
+                        (true, Some((ts, _))) if r.end > ts => {
+                            if e == Some(true) {
+                                e = None
+                            }
+                        }
+                        _ => e = Some(false),
+                    }
+                }
+                expect.push(e);
+            }
+            let was_taken = take_of(c).is_some();
+            let size = caches[c].size();
+            let mut present = Vec::new();
+            if was_taken {
+                // the registry must no longer address a client that was taken
+                pool.manager().statement_caches.clear();
+                if caches[c].size() != size {
+                    bad("registry-reached-taken-client", format!("statement_caches.clear() after client {} was taken changed its cache size from {} to {}", c, size, caches[c].size()));
+                }
+            }
+            for k in 0..2 {
+                let (q, t) = tkey(k);
+                present.push(caches[c].remove(q, &t).is_some());
+            }
+            let n = present.iter().filter(|p| **p).count();
+            if size != n {
+                bad("cache-size", format!("at rest: size() of client {} is {} but {} keys are cached", c, size, n));
+            }
+            for k in 0..2 {
+                match expect[k] {
+                    Some(true) if !present[k] => bad("cached-statement-lost", format!("client {} key {}: no call removed it but it is no longer cached", c, k)),
+                    Some(false) if present[k] => {
+                        let key = if recs.iter().any(|r| matches!(r.op, TOp::RegRemove(_) | TOp::RegClear)) && !recs.iter().any(|r| matches!(&r.op, TOp::CacheRemove(cc, _) | TOp::CacheClear(cc) if *cc == c)) { "registry-missed-owned-client" } else { "removed-statement-still-cached" };
+                        bad(key, format!("client {} key {} is still cached although a completed remove / clear covered it", c, k))
+                    }
+                    _ => {}
+                }
+            }
+        }
+    }
+    let ok = sched::wind_down();
+    if !ok && machinery.is_none() && matches!(verdict, Verdict::Done) {
+        machinery = Some("wind-down incomplete".into());
+    }
+    let mut h = std::collections::hash_map::DefaultHasher::new();
+    for r in recs.borrow().iter() {
+        (format!("{:?}", r.op), r.hit, r.size, r.start, r.end).hash(&mut h);
+    }
+    drop(taken);
+    drop(objs);
+    drop(caches);
+    drop(pool);
+    drop(rt);
+    let world = W.with(|c| c.borrow_mut().take()).unwrap();
+    let mut violations = world.viol;
+    if let Some(m) = machinery {
+        violations.push(Violation { property: "MACHINERY".into(), key: "machinery".into(), msg: m });
+    }
+    sched::end();
+    Outcome { obs: h.finish(), violations }
+}
+
+pub fn thread_scenarios(tier: Tier) -> Vec<Scenario> {
+    use TOp::*;
+    let thorough = tier == Tier::Thorough;
+    let p = if thorough { 3 } else { 2 };
+    let mut v = Vec::new();
+    let mut add = |name: &str, about: &str, p: u32, actors: Vec<Vec<TOp>>| {
+        let sc = C16TScenario { actors };
+        v.push(Scenario::new(&format!("threads/{}", name), about, p, 0, move || run_c16_threads(&sc)));
+    };
+    add("remove-vs-remove", "two threads remove the same key from one cache while a third reads size()", p, vec![vec![CacheRemove(0, 0)], vec![CacheRemove(0, 0), CacheRemove(0, 1)], vec![Size(0), Size(0)]]);
+    add("remove-vs-clear", "remove() racing with clear() on one cache", p, vec![vec![CacheRemove(0, 0), Size(0)], vec![CacheClear(0), Size(0)]]);
+    add("registry-vs-cache", "registry remove() / clear() racing with remove() on the clients' own caches", p, vec![vec![RegRemove(0), Size(1)], vec![CacheRemove(0, 0), CacheRemove(1, 0)], vec![RegClear]]);
+    add("registry-vs-take", "registry remove() and clear() racing with Object::take() of one client (its cache leaves the registry)", p, vec![vec![RegRemove(0), RegClear], vec![Take(1)], vec![Size(0)]]);
+    if thorough {
+        add("registry-vs-registry", "two registry calls and two cache calls at once", p, vec![vec![RegRemove(0)], vec![RegRemove(0), RegRemove(1)], vec![CacheClear(1), Take(0)]]);
+        add("four-threads", "remove, clear, registry remove and take on four threads", 2, vec![vec![CacheRemove(0, 1)], vec![CacheClear(0)], vec![RegRemove(1)], vec![Take(0)]]);
+    }
+    v
+}
+
 pub fn assumptions() -> Vec<String> {
     vec![
         "the scripted backend speaks the subset of the v3 protocol that startup, simple queries, Parse/Describe/Sync and Close need; tokio-postgres 0.7.18 is trusted".into(),
         "a closed connection is 'known closed' after the runtime has settled (12 yields of the current-thread runtime)".into(),
         "client, connection and server tasks run on one current-thread tokio runtime, so each history is deterministic".into(),
+        "threads/*: statement-cache and registry calls are interleaved at every operation on the cache's RwLock and size counter and on the registry's mutex (shim types in the verification build); no prepare runs in that phase (a miss needs the server), so inserts meet removes only at task level (PreparePair)".into(),
     ]
 }
